@@ -105,13 +105,16 @@ End(t) ==
     /\ Log([a |-> "End", t |-> t])
     /\ UNCHANGED <<up, dag, pay, conn, net, cnt>>
 
-\* the holder's handleTransactionPayloadQuery: data only over an authenticated connection, from a node that can decrypt
-\* the PAL, to a node the PAL names, when it has the bytes; an empty TransactionPayload otherwise
+\* the holder's handleTransactionPayloadQuery: an empty TransactionPayload when a check fails (connection not authenticated,
+\* PAL not decryptable, asker not on the PAL); when the checks pass: the bytes - or, if this participant has not got them
+\* itself, NO answer at all (ReadPayload fails with ErrPayloadNotFound and the handler returns the error)
+ServeAns(p, t) == IF conn[p] = "auth" /\ p \in Member /\ t \in Mine
+                  THEN (IF p \in Holder THEN "data" ELSE "none")
+                  ELSE "empty"
 Serve(p, t, keep) ==
     /\ Q(p, t) \in net /\ conn[p] # "down"
     /\ keep => cnt.dup < MaxDup
-    /\ LET c == IF conn[p] = "auth" /\ p \in Member /\ p \in Holder /\ t \in Mine THEN "data" ELSE "empty" IN
-       net' = (IF keep THEN net ELSE net \ {Q(p, t)}) \cup {A(p, t, c)}
+    /\ net' = (IF keep THEN net ELSE net \ {Q(p, t)}) \cup (IF ServeAns(p, t) = "none" THEN {} ELSE {A(p, t, ServeAns(p, t))})
     /\ cnt' = IF keep THEN [cnt EXCEPT !.dup = @ + 1] ELSE cnt
     /\ Log([a |-> "Serve", p |-> p, t |-> t, keep |-> keep])
     /\ UNCHANGED <<up, dag, pay, job, loop, conn>>
